@@ -30,10 +30,21 @@ import (
 )
 
 const (
-	repoRoot  = "/repo"
-	verifRoot = "/verif"
-	goBin     = "/opt/veriftools/go1.26.8/bin/go"
+	repoRoot = "/repo"
+	goBin    = "/opt/veriftools/go1.26.8/bin/go"
 )
+
+// verifRoot is the directory the driver was started in: /verif for registered
+// checks, a snapshot of it for background runs (which then keep their evidence
+// and replay files to themselves).
+var verifRoot = func() string {
+	if wd, err := os.Getwd(); err == nil {
+		if _, err := os.Stat(filepath.Join(wd, "cmd", "vcheck")); err == nil {
+			return wd
+		}
+	}
+	return "/verif"
+}()
 
 type tierCfg struct {
 	Workers int
